@@ -265,7 +265,5 @@ C10_Recovered ==
    Clause("C10", "RecoveredEqualsUncrashed", HasObs /\ hist.crashed, ObsDiff = {}, ObsDescr)
 C10_Step == C10_Height /\ C10_Recovered
 
-LeanProps == C07_Step /\ C09_Step /\ C10_Step
-StepProps == C01_Step /\ C02_Step /\ C03_Step /\ C04_Step /\ C05_Step /\ C06_Step /\ C07_Step /\ C26_Step /\ C27_Step
-             /\ C09_Step /\ C10_Step
+LedgerProps == C01_Step /\ C02_Step /\ C03_Step /\ C04_Step /\ C05_Step /\ C06_Step /\ C07_Step /\ C26_Step /\ C27_Step
 =============================================================================
